@@ -567,6 +567,8 @@ func VerifyLinkSignatureThesholds(layout Layout,
 		// below.
 		isAuthorizedSignature := false
 		for signerKeyID, linkEnv := range linksPerStep {
+			// every link has to be authorized on its own
+			isAuthorizedSignature = false
 			for _, authorizedKeyID := range step.PubKeys {
 				if signerKeyID == authorizedKeyID {
 					if verifierKey, ok := layout.Keys[authorizedKeyID]; ok {
